@@ -108,6 +108,14 @@ Definition nmLogEntries : field := 58.
 Definition nmActiveDbg : field := 60.
 Definition a_nmActive : field := 55.
 Definition a_nmCurTx : field := 59.
+(* the NetworkMachine's own Subscriptions instance *)
+Definition nmSubsWhen : field := 62.
+Definition nmSubsTime : field := 63.
+Definition nmSubsQuery : field := 65.
+Definition nmSubsStateCtx : field := 66.
+Definition nmSubsQueue : field := 67.
+Definition nmSubsClock : field := 68.
+Definition nmSubsMx : lock := 25.
 
 (* field classes (the narrowness of violation codes) *)
 Definition field_class (f : field) : nat :=
@@ -132,11 +140,6 @@ Record entry := E { e_name : string; e_prog : prog }.
 Definition atom (f : field) : prog := [Atomic f].
 Definition none : prog := [].
 
-Fixpoint dedupb {A : Type} (eqb : A -> A -> bool) (l : list A) : list A :=
-  match l with
-  | [] => []
-  | x :: r => if existsb (eqb x) r then dedupb eqb r else x :: dedupb eqb r
-  end.
 
 Definition locked (l : lock) (m : mode) (body : prog) : prog :=
   Acq l m :: body ++ [Rel l m].
@@ -398,12 +401,12 @@ Definition p_nmLog : prog :=
   locked nmLogLock Ex [Read nmLogEntries; Write nmLogEntries].
 Definition p_nmIs : prog := p_nmActive ++ p_nmStateNames.
 Definition p_nmSubsAll : prog :=
-  locked subsMx Ex [Read subsStateCtx; Write subsStateCtx] ++
-  locked subsMx Ex [Read subsWhen; Write subsWhen] ++
-  locked subsMx Ex [Read subsTime; Write subsTime; Read subsClock; Read nmMachClock] ++
+  locked nmSubsMx Ex [Read nmSubsStateCtx; Write nmSubsStateCtx] ++
+  locked nmSubsMx Ex [Read nmSubsWhen; Write nmSubsWhen] ++
+  locked nmSubsMx Ex [Read nmSubsTime; Write nmSubsTime; Read nmSubsClock; Read nmMachClock] ++
   [Read nmQueueTick] ++
-  locked subsMx Ex [Read subsQueue; Write subsQueue] ++
-  locked subsMx Ex [Read subsQuery; Write subsQuery; Read subsClock; Read nmMachClock].
+  locked nmSubsMx Ex [Read nmSubsQueue; Write nmSubsQueue] ++
+  locked nmSubsMx Ex [Read nmSubsQuery; Write nmSubsQuery; Read nmSubsClock; Read nmMachClock].
 (* NetMachInternal.Lock() + UpdateClock(), netmach.go:1336: logEntries is
    read and reset without logEntriesLock; queueFlush reads the queue indexes
    without sm.Mx *)
@@ -413,7 +416,7 @@ Definition p_nmUpdateClock : prog :=
     ([Read nmMachTime; Read nmMachClock] ++ p_nmActive ++ p_nmStateNames ++ p_nmStateNames ++
      [Read nmLogEntries; Atomic a_nmCurTx; Write nmLogEntries; Read nmTracers;
       Write nmMachTime; Write nmMachClock; Write nmMachTick; Read nmQueueTick] ++
-     p_nmLog ++ [Read subsQueue; Write nmQueueTick; Atomic a_nmActive; Write nmActiveDbg] ++
+     p_nmLog ++ [Read nmSubsQueue; Write nmQueueTick; Atomic a_nmActive; Write nmActiveDbg] ++
      locked nmHandlersMx Ex [Read nmHandlers] ++
      [Rel nmClockMx Ex; Read nmTracers] ++
      locked nmClockMx Sh p_nmSubsAll ++ [Atomic a_nmCurTx]).
@@ -427,22 +430,22 @@ Definition p_nmMachineTick : prog := locked nmClockMx Sh [Read nmMachTick].
 Definition p_nmWhen : prog :=
   locked nmClockMx Ex
     (p_nmStateNames ++ p_nmIs ++
-     locked subsMx Ex ([Read subsWhen] ++ p_nmIs ++ p_nmLog ++ [Write subsWhen])).
+     locked nmSubsMx Ex ([Read nmSubsWhen] ++ p_nmIs ++ p_nmLog ++ [Write nmSubsWhen])).
 Definition p_nmWhenNot : prog :=
   locked nmClockMx Ex
-    (p_nmStateNames ++ p_nmIs ++ [Read subsWhen] ++
-     locked subsMx Ex (p_nmIs ++ p_nmLog ++ [Read subsWhen; Write subsWhen])).
+    (p_nmStateNames ++ p_nmIs ++ [Read nmSubsWhen] ++
+     locked nmSubsMx Ex (p_nmIs ++ p_nmLog ++ [Read nmSubsWhen; Write nmSubsWhen])).
 Definition p_nmWhenTime : prog :=
   locked nmClockMx Ex
-    (locked subsMx Ex ([Read subsTime; Read subsClock; Read nmMachClock] ++ p_nmLog ++
-                       [Write subsTime])).
+    (locked nmSubsMx Ex ([Read nmSubsTime; Read nmSubsClock; Read nmMachClock] ++ p_nmLog ++
+                       [Write nmSubsTime])).
 Definition p_nmWhenQueue : prog :=
   locked nmClockMx Ex
-    ([Read nmQueueTick] ++ locked subsMx Ex ([Read subsQueue; Write subsQueue] ++ p_nmLog)).
+    ([Read nmQueueTick] ++ locked nmSubsMx Ex ([Read nmSubsQueue; Write nmSubsQueue] ++ p_nmLog)).
 Definition p_nmNewStateCtx : prog :=
   locked nmClockMx Ex
-    (locked subsMx Ex ([Read subsStateCtx; Read subsClock; Read nmMachClock;
-                        Write subsStateCtx] ++ p_nmLog)).
+    (locked nmSubsMx Ex ([Read nmSubsStateCtx; Read nmSubsClock; Read nmMachClock;
+                        Write nmSubsStateCtx] ++ p_nmLog)).
 (* netmach.go:1327: Tracers() takes clockMx, the writers take tracersMx *)
 Definition p_nmTracers : prog := locked nmClockMx Ex [Read nmTracers].
 Definition p_nmTracerBind : prog :=
@@ -545,7 +548,44 @@ Local Open Scope string_scope.
 Definition culprits : list string :=
   ["VerifyStates"; "SetSchema"; "Import"; "NM.Tracers"; "NM.Log"].
 
+(* entries that do not follow the guard discipline [guards] below (on the Cold
+   table: every entry that can run StateNames()'s write branch as well) *)
+Definition discipline_exceptions : list string :=
+  ["Has"; "Has1"; "WhenNot"; "WhenNot1"; "Import"; "VerifyStates"; "SetSchema";
+   "NM.UpdateClock"; "NM.WhenNot1"; "NM.Tracers"].
+
+(* Go identifiers of the modelled fields, per package, for attributing a race
+   report's source lines to a field *)
+Definition field_idents : list (string * string * field) :=
+  [("machine", "activeStates", activeStates); ("machine", "clock", clock);
+   ("machine", "queue", queue); ("machine", "queueTick", queueTick);
+   ("machine", "queueTicksPending", queuePending);
+   ("machine", "schema", schema); ("machine", "stateNames", stateNames);
+   ("machine", "stateNamesExport", stateNamesExport);
+   ("machine", "machineTick", machineTick);
+   ("machine", "groups", groups); ("machine", "groupsOrder", groups);
+   ("machine", "tracers", tracers); ("machine", "handlers", handlers);
+   ("machine", "disposeHandlers", disposeHandlers);
+   ("machine", "nextHandlerNum", nextHandlerNum);
+   ("machine", "when", subsWhen); ("machine", "whenCtx", subsWhen);
+   ("machine", "whenTime", subsTime); ("machine", "whenTimeCtx", subsTime);
+   ("machine", "whenArgs", subsArgs); ("machine", "whenArgsCtx", subsArgs);
+   ("machine", "whenQuery", subsQuery); ("machine", "whenQueryCtx", subsQuery);
+   ("machine", "stateCtx", subsStateCtx);
+   ("machine", "whenQueue", subsQueue); ("machine", "whenQueueEnds", subsQueue);
+   ("machine", "logEntries", logEntries); ("machine", "breakpoints", breakpoints);
+   ("machine", "Index", resolver); ("machine", "topology", resolver);
+   ("machine", "Transition", resolver); ("machine", "tDbg", tDbg);
+   ("rpc", "machTime", nmMachTime); ("rpc", "machClock", nmMachClock);
+   ("rpc", "queueTick", nmQueueTick); ("rpc", "machTick", nmMachTick);
+   ("rpc", "stateNames", nmStateNames); ("rpc", "tracers", nmTracers);
+   ("rpc", "handlers", nmHandlers); ("rpc", "logEntries", nmLogEntries);
+   ("rpc", "activeStatesDbg", nmActiveDbg)].
+
 Local Close Scope string_scope.
+
+Definition breaks_discipline (name : string) : bool :=
+  existsb (String.eqb name) discipline_exceptions.
 
 Definition lookup (v : variant) (name : string) : option entry :=
   find (fun e => String.eqb (e_name e) name) (api_table v).
@@ -602,6 +642,12 @@ Definition guards : guard_map := fun f =>
   else if Nat.eqb f nmHandlers then [nmHandlersMx]
   else if Nat.eqb f nmLogEntries then [nmLogLock]
   else if Nat.eqb f nmActiveDbg then [nmClockMx]
+  else if Nat.eqb f nmSubsWhen then [nmSubsMx]
+  else if Nat.eqb f nmSubsTime then [nmSubsMx]
+  else if Nat.eqb f nmSubsQuery then [nmSubsMx]
+  else if Nat.eqb f nmSubsStateCtx then [nmSubsMx]
+  else if Nat.eqb f nmSubsQueue then [nmSubsMx]
+  else if Nat.eqb f nmSubsClock then [nmSubsMx]
   else [].
 
 (* entries that break the guard discipline, with the fields they break it on *)
@@ -616,8 +662,9 @@ Definition ill_locked (v : variant) : list (string * list field) :=
 
 (* fields on which two programs are NOT pairwise protected *)
 Definition racy_fields (p q : prog) : list field :=
-  filter (fun f => negb (pair_protected f p q))
-    (dedupb Nat.eqb (fields_of p ++ fields_of q)).
+  let xs := csumm p in let ys := csumm q in
+  filter (fun f => negb (accs_protected f xs ys))
+    (dedupb Nat.eqb (map a_field xs ++ map a_field ys)).
 
 Definition may_race (v : variant) (a b : string) : list field :=
   racy_fields (prog_of v a) (prog_of v b).
